@@ -17,6 +17,7 @@ import (
 	"net"
 	gohttp "net/http"
 	"net/http/httptest"
+	"reflect"
 	"sort"
 	"strings"
 	"testing"
@@ -31,7 +32,7 @@ import (
 type vc23Route struct {
 	class string
 	// build returns the request; hot = arguments that would change the fixture if not refused.
-	build func(e *vc23Env, hot bool, variant int) *gohttp.Request
+	build func(e *vc23Env, hot bool, draw vc23Draw) *gohttp.Request
 }
 
 const vc23RefusalText = "not allowed in state"
@@ -57,86 +58,99 @@ var vc23PB = []string{"Content-Type", "application/x-protobuf", "Accept", "appli
 
 // vc23Routes classifies the known routes by "METHOD path-template".
 var vc23Routes = map[string]vc23Route{
-	"POST /index/{index}/query": {vc23Gated, func(e *vc23Env, hot bool, v int) *gohttp.Request {
+	"POST /index/{index}/query": {vc23Gated, func(e *vc23Env, hot bool, draw vc23Draw) *gohttp.Request {
 		qs := []string{"Set(9, f=3)", "Clear(1, f=1)", "ClearRow(f=1)", "Store(Row(f=2), f=1)", "Set(5, v=7)", "Row(f=1)"}
-		return vc23Req("POST", "/index/"+vc23pick(hot, vc23Idx, vc23Scratch)+"/query", []byte(qs[v%len(qs)]))
+		q := qs[draw("query", len(qs))]
+		idx := vc23pick(hot, vc23Idx, vc23Scratch)
+		if draw("flag:protobuf-body", 2) == 1 {
+			// the protobuf form carries the request flags (Remote, ...) in the body
+			req := &pilosa.QueryRequest{Index: idx, Query: q}
+			for _, name := range vc23BoolFields(reflect.TypeOf(pilosa.QueryRequest{})) {
+				if draw("flag:QueryRequest."+name, 2) == 1 {
+					reflect.ValueOf(req).Elem().FieldByName(name).SetBool(true)
+				}
+			}
+			body, _ := e.ser.Marshal(req)
+			return vc23Req("POST", "/index/"+idx+"/query", body, vc23PB...)
+		}
+		return vc23Req("POST", "/index/"+idx+"/query", []byte(q))
 	}},
-	"POST /index/{index}": {vc23Gated, func(e *vc23Env, hot bool, v int) *gohttp.Request {
+	"POST /index/{index}": {vc23Gated, func(e *vc23Env, hot bool, draw vc23Draw) *gohttp.Request {
 		e.n++
 		return vc23Req("POST", fmt.Sprintf("/index/c23tmph%d", e.n), []byte(`{"options":{"keys":false}}`))
 	}},
-	"DELETE /index/{index}": {vc23Gated, func(e *vc23Env, hot bool, v int) *gohttp.Request {
+	"DELETE /index/{index}": {vc23Gated, func(e *vc23Env, hot bool, draw vc23Draw) *gohttp.Request {
 		return vc23Req("DELETE", "/index/"+vc23pick(hot, vc23Idx, "c23tmpnone"), nil)
 	}},
-	"POST /index/{index}/field/{field}": {vc23Gated, func(e *vc23Env, hot bool, v int) *gohttp.Request {
+	"POST /index/{index}/field/{field}": {vc23Gated, func(e *vc23Env, hot bool, draw vc23Draw) *gohttp.Request {
 		e.n++
 		return vc23Req("POST", fmt.Sprintf("/index/%s/field/tmph%d", vc23pick(hot, vc23Idx, vc23Scratch), e.n), []byte(`{"options":{"type":"set"}}`))
 	}},
-	"DELETE /index/{index}/field/{field}": {vc23Gated, func(e *vc23Env, hot bool, v int) *gohttp.Request {
+	"DELETE /index/{index}/field/{field}": {vc23Gated, func(e *vc23Env, hot bool, draw vc23Draw) *gohttp.Request {
 		return vc23Req("DELETE", "/index/"+vc23pick(hot, vc23Idx+"/field/f", vc23Scratch+"/field/nosuchfield"), nil)
 	}},
-	"POST /index/{index}/field/{field}/import": {vc23Gated, func(e *vc23Env, hot bool, v int) *gohttp.Request {
+	"POST /index/{index}/field/{field}/import": {vc23Gated, func(e *vc23Env, hot bool, draw vc23Draw) *gohttp.Request {
 		idx := vc23pick(hot, vc23Idx, vc23Scratch)
-		if v%2 == 0 {
+		if draw("flag:import-kind", 2) == 0 {
 			body, _ := e.ser.Marshal(&pilosa.ImportRequest{Index: idx, Field: "f", Shard: 0, RowIDs: []uint64{7}, ColumnIDs: []uint64{3}})
 			return vc23Req("POST", "/index/"+idx+"/field/f/import", body, vc23PB...)
 		}
 		body, _ := e.ser.Marshal(&pilosa.ImportValueRequest{Index: idx, Field: "v", Shard: 0, ColumnIDs: []uint64{1}, Values: []int64{9}})
 		return vc23Req("POST", "/index/"+idx+"/field/v/import", body, vc23PB...)
 	}},
-	"POST /index/{index}/field/{field}/import-roaring/{shard}": {vc23Gated, func(e *vc23Env, hot bool, v int) *gohttp.Request {
+	"POST /index/{index}/field/{field}/import-roaring/{shard}": {vc23Gated, func(e *vc23Env, hot bool, draw vc23Draw) *gohttp.Request {
 		idx := vc23pick(hot, vc23Idx, vc23Scratch)
 		var buf bytes.Buffer
 		roaring.NewBitmap(7*pilosa.ShardWidth + 3).WriteTo(&buf)
-		body, _ := e.ser.Marshal(&pilosa.ImportRoaringRequest{Views: map[string][]byte{"": buf.Bytes()}})
+		body, _ := e.ser.Marshal(&pilosa.ImportRoaringRequest{Clear: draw("flag:body.Clear", 2) == 1, Views: map[string][]byte{"": buf.Bytes()}})
 		return vc23Req("POST", "/index/"+idx+"/field/f/import-roaring/0", body, vc23PB...)
 	}},
-	"GET /export": {vc23Gated, func(e *vc23Env, hot bool, v int) *gohttp.Request {
+	"GET /export": {vc23Gated, func(e *vc23Env, hot bool, draw vc23Draw) *gohttp.Request {
 		return vc23Req("GET", "/export?index="+vc23Idx+"&field=f&shard=0", nil, "Accept", "text/csv")
 	}},
-	"POST /recalculate-caches": {vc23Gated, func(e *vc23Env, hot bool, v int) *gohttp.Request {
+	"POST /recalculate-caches": {vc23Gated, func(e *vc23Env, hot bool, draw vc23Draw) *gohttp.Request {
 		return vc23Req("POST", "/recalculate-caches", nil)
 	}},
-	"POST /schema": {vc23Gated, func(e *vc23Env, hot bool, v int) *gohttp.Request {
+	"POST /schema": {vc23Gated, func(e *vc23Env, hot bool, draw vc23Draw) *gohttp.Request {
 		body := `{"indexes":[{"name":"` + vc23Scratch + `","fields":[{"name":"f","options":{"type":"set","cacheType":"ranked","cacheSize":100}}]}]}`
 		if hot {
 			body = `{"indexes":[{"name":"c23tmpapplied","fields":[{"name":"g","options":{"type":"set","cacheType":"ranked","cacheSize":100}}]}]}`
 		}
-		return vc23Req("POST", "/schema?remote=true", []byte(body))
+		return vc23Req("POST", "/schema", []byte(body))
 	}},
-	"GET /internal/fragment/block/data": {vc23Gated, func(e *vc23Env, hot bool, v int) *gohttp.Request {
+	"GET /internal/fragment/block/data": {vc23Gated, func(e *vc23Env, hot bool, draw vc23Draw) *gohttp.Request {
 		body, _ := e.ser.Marshal(&pilosa.BlockDataRequest{Index: vc23Idx, Field: "f", View: "standard", Shard: 0, Block: 0})
 		return vc23Req("GET", "/internal/fragment/block/data", body, vc23PB...)
 	}},
-	"GET /internal/fragment/blocks": {vc23Gated, func(e *vc23Env, hot bool, v int) *gohttp.Request {
+	"GET /internal/fragment/blocks": {vc23Gated, func(e *vc23Env, hot bool, draw vc23Draw) *gohttp.Request {
 		return vc23Req("GET", "/internal/fragment/blocks?index="+vc23Idx+"&field=f&view=standard&shard=0", nil)
 	}},
-	"GET /internal/fragment/nodes": {vc23Gated, func(e *vc23Env, hot bool, v int) *gohttp.Request {
+	"GET /internal/fragment/nodes": {vc23Gated, func(e *vc23Env, hot bool, draw vc23Draw) *gohttp.Request {
 		return vc23Req("GET", "/internal/fragment/nodes?index="+vc23Idx+"&shard=0", nil)
 	}},
-	"POST /internal/index/{index}/attr/diff": {vc23Gated, func(e *vc23Env, hot bool, v int) *gohttp.Request {
+	"POST /internal/index/{index}/attr/diff": {vc23Gated, func(e *vc23Env, hot bool, draw vc23Draw) *gohttp.Request {
 		return vc23Req("POST", "/internal/index/"+vc23Idx+"/attr/diff", []byte(`{"blocks":[]}`))
 	}},
-	"POST /internal/index/{index}/field/{field}/attr/diff": {vc23Gated, func(e *vc23Env, hot bool, v int) *gohttp.Request {
+	"POST /internal/index/{index}/field/{field}/attr/diff": {vc23Gated, func(e *vc23Env, hot bool, draw vc23Draw) *gohttp.Request {
 		return vc23Req("POST", "/internal/index/"+vc23Idx+"/field/f/attr/diff", []byte(`{"blocks":[]}`))
 	}},
-	"DELETE /internal/index/{index}/field/{field}/remote-available-shards/{shardID}": {vc23Gated, func(e *vc23Env, hot bool, v int) *gohttp.Request {
+	"DELETE /internal/index/{index}/field/{field}/remote-available-shards/{shardID}": {vc23Gated, func(e *vc23Env, hot bool, draw vc23Draw) *gohttp.Request {
 		return vc23Req("DELETE", "/internal/index/"+vc23pick(hot, vc23Idx, vc23Scratch)+"/field/f/remote-available-shards/"+vc23pick(hot, "1", "9"), nil)
 	}},
-	"POST /cluster/resize/remove-node": {vc23Gated, func(e *vc23Env, hot bool, v int) *gohttp.Request {
+	"POST /cluster/resize/remove-node": {vc23Gated, func(e *vc23Env, hot bool, draw vc23Draw) *gohttp.Request {
 		return vc23Req("POST", "/cluster/resize/remove-node", []byte(`{"id":"no-such-node"}`))
 	}},
-	"GET /internal/fragment/data": {vc23Resizing, func(e *vc23Env, hot bool, v int) *gohttp.Request {
+	"GET /internal/fragment/data": {vc23Resizing, func(e *vc23Env, hot bool, draw vc23Draw) *gohttp.Request {
 		return vc23Req("GET", "/internal/fragment/data?index="+vc23Idx+"&field=f&view=standard&shard=0", nil)
 	}},
-	"POST /cluster/resize/abort": {vc23Resizing, func(e *vc23Env, hot bool, v int) *gohttp.Request {
+	"POST /cluster/resize/abort": {vc23Resizing, func(e *vc23Env, hot bool, draw vc23Draw) *gohttp.Request {
 		return vc23Req("POST", "/cluster/resize/abort", nil)
 	}},
-	"POST /internal/cluster/message": {vc23Always, func(e *vc23Env, hot bool, v int) *gohttp.Request {
+	"POST /internal/cluster/message": {vc23Always, func(e *vc23Env, hot bool, draw vc23Draw) *gohttp.Request {
 		body, _ := pilosa.MarshalInternalMessage(&pilosa.RecalculateCaches{}, e.ser)
 		return vc23Req("POST", "/internal/cluster/message", body, "Content-Type", "application/x-protobuf")
 	}},
-	"POST /cluster/resize/set-coordinator": {vc23Always, func(e *vc23Env, hot bool, v int) *gohttp.Request {
+	"POST /cluster/resize/set-coordinator": {vc23Always, func(e *vc23Env, hot bool, draw vc23Draw) *gohttp.Request {
 		return vc23Req("POST", "/cluster/resize/set-coordinator", []byte(`{"id":"no-such-node"}`))
 	}},
 	"GET /":                         {vc23Status, nil},
@@ -153,6 +167,32 @@ var vc23Routes = map[string]vc23Route{
 	"GET /debug/vars":               {vc23Skip, nil},
 	"GET /metrics":                  {vc23Status, nil},
 	"GET /debug/pprof/":             {vc23Skip, nil},
+}
+
+// vc23OptionalArgs reads the handler's query-argument validation table (unexported,
+// read-only through reflection) and returns the optional arguments of a route.
+func vc23OptionalArgs(h *http.Handler, routeName string) (out []string) {
+	defer func() {
+		if r := recover(); r != nil {
+			out = nil
+		}
+	}()
+	spec := reflect.ValueOf(h).Elem().FieldByName("validators").MapIndex(reflect.ValueOf(routeName))
+	if !spec.IsValid() || spec.IsNil() {
+		return nil
+	}
+	req := map[string]bool{}
+	rv := spec.Elem().FieldByName("required")
+	for i := 0; i < rv.Len(); i++ {
+		req[rv.Index(i).String()] = true
+	}
+	for _, k := range spec.Elem().FieldByName("args").MapKeys() {
+		if !req[k.String()] {
+			out = append(out, k.String())
+		}
+	}
+	sort.Strings(out)
+	return out
 }
 
 func vc23GenericReq(key string) *gohttp.Request {
@@ -183,6 +223,7 @@ func TestVerifC23_HTTP(t *testing.T) {
 		vgsInconclusive("handler is %T, not *mux.Router", h.Handler)
 	}
 	var keys []string
+	optional := map[string][]string{}
 	router.Walk(func(route *mux.Route, _ *mux.Router, _ []*mux.Route) error {
 		tpl, err := route.GetPathTemplate()
 		if err != nil {
@@ -194,9 +235,13 @@ func TestVerifC23_HTTP(t *testing.T) {
 		}
 		for _, m := range ms {
 			keys = append(keys, m+" "+tpl)
+			if opt := vc23OptionalArgs(h, route.GetName()); len(opt) > 0 {
+				optional[m+" "+tpl] = opt
+			}
 		}
 		return nil
 	})
+	vkit.Extra("http_optional_query_args", optional)
 	sort.Strings(keys)
 	var unclassified []string
 	for _, k := range keys {
@@ -224,7 +269,8 @@ func TestVerifC23_HTTP(t *testing.T) {
 			if rt.class == vc23Skip {
 				continue
 			}
-			for v := 0; v < variants; v++ {
+			odo := &vc23Odo{}
+			for more := true; more || odo.iter < variants; more = odo.next() && more {
 				class := rt.class
 				if !known {
 					class = "unclassified"
@@ -239,10 +285,23 @@ func TestVerifC23_HTTP(t *testing.T) {
 				}
 				var req *gohttp.Request
 				if rt.build != nil {
-					req = rt.build(e, hot, v)
+					req = rt.build(e, hot, odo.draw)
 				} else {
 					req = vc23GenericReq(k)
 				}
+				// every optional query-string argument the handler accepts on this route
+				// (read from its validation table), on and off
+				qv := req.URL.Query()
+				for _, arg := range optional[k] {
+					if odo.draw("flag:?"+arg, 2) == 1 {
+						val := "true"
+						if arg == "shards" {
+							val = "0,1"
+						}
+						qv.Set(arg, val)
+					}
+				}
+				req.URL.RawQuery = qv.Encode()
 				desc := fmt.Sprintf("%s %s", req.Method, req.URL.String())
 				vc23SetState(api, st)
 				rec := httptest.NewRecorder()
@@ -251,7 +310,7 @@ func TestVerifC23_HTTP(t *testing.T) {
 				body := rec.Body.String()
 				refused := rec.Code >= 400 && strings.Contains(body, vc23RefusalText)
 				saysRefused := strings.Contains(body, vc23RefusalText)
-				vc.Key("http", st, desc, v)
+				vc.Key("http", st, desc, odo.iter)
 				vc.Sample(map[string]interface{}{"state": st, "route": k, "request": desc, "status": rec.Code, "refused": refused})
 				if refused {
 					vc.Class(fmt.Sprintf("http-refusal-status:%d", rec.Code))
